@@ -378,3 +378,84 @@ func c16WriterLifecycles(r *vf.Run) {
 		r.Distinct("simultaneous-flushes")
 	}
 }
+
+// c16OddInvocations (round 9): `updog create` called in ways its usage text does not promise anything for -- several
+// input files, the output naming an existing directory whose entries are named like the inputs, the same with --big --
+// next to existing files. Whatever the command makes of such a call (today: a usage error), every file that existed
+// before is still there, byte for byte.
+func c16OddInvocations(r *vf.Run) {
+	if !r.Want("odd-invocations") || !haveBin("updog") {
+		return
+	}
+	dir := filepath.Join(r.Scratch, "odd-invocations")
+	mustMkdir(dir)
+	csv := func(name string, n int) string {
+		p := filepath.Join(dir, name)
+		var sb strings.Builder
+		sb.WriteString("a,b\n")
+		for i := 0; i < n; i++ {
+			fmt.Fprintf(&sb, "%d,%d\n", i, i%3)
+		}
+		_ = os.WriteFile(p, []byte(sb.String()), 0o644)
+		return p
+	}
+	first, second := csv("first.csv", 20), csv("second.csv", 1500)
+	valid := filepath.Join(dir, "valid.updog")
+	if err := ix.Build(ix.WriterMemFile, valid, []oracle.Row{{"x": "1"}, {"x": "2", "y": "z"}}); err != nil {
+		r.Violation("odd-invocations", "build", err.Error())
+		return
+	}
+	vb, _ := os.ReadFile(valid)
+	k := 0
+	for _, big := range []bool{false, true} {
+		for _, shape := range []string{"two inputs, output directory holds files named like them", "two inputs, output is an existing index", "three inputs (one twice), output directory", "input named twice, output is one of the inputs' neighbours"} {
+			k++
+			cid := fmt.Sprintf("odd-invocations/%d", k)
+			if !r.Want(cid) {
+				continue
+			}
+			out := filepath.Join(dir, fmt.Sprintf("out-%d", k))
+			mustMkdir(out)
+			existing := map[string][]byte{
+				filepath.Join(out, "first.updog"):      vb,
+				filepath.Join(out, "second.updog"):     []byte("somebody else's bytes"),
+				filepath.Join(out, "second.csv.updog"): vb,
+				filepath.Join(out, "first.csv.updog"):  {},
+			}
+			for p, b := range existing {
+				_ = os.WriteFile(p, b, 0o644)
+			}
+			args := []string{"create"}
+			if big {
+				args = append(args, "-b")
+			}
+			switch shape {
+			case "two inputs, output directory holds files named like them":
+				args = append(args, "-o", out, first, second)
+			case "two inputs, output is an existing index":
+				args = append(args, "-o", filepath.Join(out, "first.updog"), first, second)
+			case "three inputs (one twice), output directory":
+				args = append(args, first, second, first, "-o", out)
+			default:
+				args = append(args, "-o", filepath.Join(out, "second.updog"), second, second)
+			}
+			res := runChild(r, binPath("updog"), args, childOpts{Timeout: 2 * time.Minute, Dir: dir})
+			r.Eval(1)
+			w := map[string]any{"invocation": strings.Join(args, " "), "exit_code": res.Code, "stderr": head(res.Stderr, 300)}
+			if res.TimedOut {
+				hangVerdict(r, cid, res, w)
+				continue
+			}
+			for p, b := range existing {
+				nb, err := os.ReadFile(p)
+				if err != nil || string(nb) != string(b) {
+					w["file"], w["now"] = filepath.Base(p), fmt.Sprintf("%d bytes, read error %v", len(nb), err)
+					r.Violation(cid, "existing-file-changed", w)
+					break
+				}
+			}
+			r.Count("create_invocations_with_several_inputs", 1)
+			r.Distinct(cid)
+		}
+	}
+}
